@@ -381,10 +381,15 @@ func (r constantReference) Link(scope Scope, t TypeSpec) (ConstantValue, error) 
 
 	if enum, ok := lookupEnum(scope, mname); ok {
 		if item, ok := enum.LookupItem(iname); ok {
-			return EnumItemReference{
+			ref := EnumItemReference{
 				Enum: enum,
 				Item: item,
-			}, nil
+			}
+			// An item of one enum is not a value of another enum.
+			if want, ok := RootTypeSpec(t).(*EnumSpec); ok && want != enum {
+				return nil, constantValueCastError{Value: ref, Type: t}
+			}
+			return ref, nil
 		}
 
 		return nil, referenceError{
